@@ -162,7 +162,10 @@ def tokens_text(tokens: List[dict]) -> str:
             close = {"(": ")", "[": "]", "{": "}"}[t["d"]]
             s += t["d"] + tokens_text(t["ts"]) + close
         elif t["t"] == "lit":
-            s += t.get("raw", str(t.get("v")))
+            if str(t.get("lk", "")).startswith("Str") and t.get("ty") == "str":
+                s += '"' + t.get("raw", "") + '"'
+            else:
+                s += t.get("raw", str(t.get("v"))) + t.get("suffix", "")
         else:
             s += str(t["v"])
     return s
